@@ -2822,7 +2822,7 @@ func (d *decoderJsonBytes) decodeBytesInto(out []byte, mustFit bool) (v []byte, 
 func (d *decoderJsonBytes) rawBytes() (v []byte) {
 
 	v = d.d.nextValueBytes()
-	if d.bytes && !d.h.ZeroCopy {
+	if !(d.bytes && d.h.ZeroCopy) {
 		vv := make([]byte, len(v))
 		copy(vv, v)
 		v = vv
@@ -6994,7 +6994,7 @@ func (d *decoderJsonIO) decodeBytesInto(out []byte, mustFit bool) (v []byte, sta
 func (d *decoderJsonIO) rawBytes() (v []byte) {
 
 	v = d.d.nextValueBytes()
-	if d.bytes && !d.h.ZeroCopy {
+	if !(d.bytes && d.h.ZeroCopy) {
 		vv := make([]byte, len(v))
 		copy(vv, v)
 		v = vv
